@@ -81,6 +81,11 @@ class VectorContainer:
     @staticmethod
     def _locate_period_in_span_fallback(period: Hashable, span: np.ndarray) -> int:
         """Fallback (static) location method, should other `span`-indexing methods fail."""
+        # Only a scalar can match an element of the (one-dimensional) span: a
+        # tuple, say, would be compared with the span element by element
+        if np.ndim(period) != 0:
+            raise KeyError(period)
+
         # Convert `span` to a NumPy array of type `object` and locate matches
         locations = np.asarray(np.asarray(span, dtype=object) == period).nonzero()
 
